@@ -49,9 +49,9 @@ PRIORITY = [
     "none-attribute-hash:set-of-structures",
     "dropped:undeclared-keys", "unnormalised:boolean-string", "defaults-not-applied",
     "unnormalised:enum-name", "unnormalised:inline-dict", "unnormalised:rebuilt-collection", "unnormalised:float-int",
-    "mapper:cascade",
+    "mapper:cascade", "mapper:fallback",
     "fast:tuple-index", "fast:positional-index", "fast:json-dumps", "fast:untyped-raw", "fast:inline-none-keys",
-    "fast:multi-wrapper", "fast:nonfast-nested", "fast:mapper-cascade", "fast:compact-conditions", "fast:extras-dropped",
+    "fast:nonfast-nested", "fast:multi-wrapper", "fast:mapper-cascade", "fast:compact-conditions", "fast:extras-dropped",
     "decimal",
 ]
 
@@ -118,14 +118,20 @@ def judge_trusted(case, impl, model):
             msgs.append(m_reg)
     m_tru = None
     eligible = model.get("verdict") in ("flat", "nested")
-    if "trusted" in model and (eligible or model.get("verdict") == "raises" or (mapper_free and in_scope and not offpath)):
+    set_of_struct = _has_set_of_struct(cls)   # CPython dedups by hash (= str(instance)), the model by ==  (C11)
+    if set_of_struct:
+        m_reg = None
+        msgs[:] = [m for m in msgs if not m.startswith("regular deserialize")]
+    if "trusted" in model and not set_of_struct and (eligible or model.get("verdict") == "raises" or (mapper_free and in_scope and not offpath)):
         m_tru = S.res_same(cls, model["trusted"], tru)
-        if m_tru and "exception class differs" in m_tru and "ok" not in (reg or {}):
-            m_tru = None       # garbage documents: the model raises in field order, the code in document order
+        if m_tru and "exception class differs" in m_tru:
+            m_tru = None       # two raising entries: the model raises in field order, the code in document order
         if m_tru:
             msgs.append("trusted deserialize: " + m_tru)
-    if mapper_free and in_scope and not offpath and reg and "ok" in reg:
+    if mapper_free and in_scope and not offpath and not set_of_struct and reg and "ok" in reg:
         for key in ("serX", "serY"):
+            if key == "serY" and not model.get("yWellFormed"):
+                continue    # the regular serializer model (Sem/Serde) only claims well-formed instances
             if key in model and key in impl:
                 d = S.res_same(cls, model[key], impl[key], doc=True)
                 if d and "exception class differs" not in d:
@@ -171,6 +177,8 @@ def judge_trusted(case, impl, model):
                 tag_list = list(model.get("declDefects", [])) + list(model.get("docIssues", []))
                 if not mapper_free and model.get("cascade"):
                     tag_list.append("mapper:cascade")
+                if not mapper_free and _uses_unmapped_names(cls, case["doc"], case.get("mapperSpec") or {}):
+                    tag_list.append("mapper:fallback")
                 in_region = bool(mapper_free and model.get("tsafe") and model.get("plain"))
                 explained = m_tru is None and (m_reg is None)
                 key = attribute(what, in_region, explained, tag_list)
@@ -183,6 +191,49 @@ def judge_trusted(case, impl, model):
                     and json.dumps(model.get("serX")) == json.dumps(model.get("serY"))):
                 msgs.append("model violates its own theorem inside the proved region")
     return ("; ".join(msgs)[:1500] if msgs else None), fails
+
+
+def _has_set_of_struct(d):
+    if isinstance(d, dict):
+        if d.get("k") == "setOf" and _contains_struct(d.get("item")):
+            return True
+        return any(_has_set_of_struct(v) for v in d.values())
+    if isinstance(d, list):
+        return any(_has_set_of_struct(x) for x in d)
+    return False
+
+
+def _contains_struct(d):
+    if isinstance(d, dict):
+        return d.get("k") == "struct" or any(_contains_struct(v) for v in d.values())
+    if isinstance(d, list):
+        return any(_contains_struct(x) for x in d)
+    return False
+
+
+def _uses_unmapped_names(d, doc, table):
+    """some class-level object of the document spells a renamed field by its field name"""
+    if not isinstance(d, dict) or not isinstance(doc, dict):
+        return False
+    k = d.get("k")
+    if k == "struct" and "m" in doc and not d.get("inline"):
+        m = table.get(d["name"])
+        fd = dict((n, f) for n, f in d["fields"])
+        keys = {S.map_key(m, n): n for n in fd}
+        for kk, v in doc["m"]:
+            if kk in fd and S.map_key(m, kk) != kk:
+                return True
+            sub = fd.get(keys.get(kk, kk))
+            if sub is not None and _uses_unmapped_names(sub, v, table):
+                return True
+        return False
+    if k in ("seqOf", "setOf", "tupleOf") and "l" in doc:
+        return any(_uses_unmapped_names(d["item"], x, table) for x in doc["l"])
+    if k == "mapOf" and "m" in doc:
+        return any(_uses_unmapped_names(d["val"], v, table) for _, v in doc["m"])
+    if k == "anyOf":
+        return any(_uses_unmapped_names(o, doc, table) for o in d["fields"])
+    return False
 
 
 def _loose_err(msg):
@@ -203,10 +254,7 @@ def judge_construct(case, impl, model):
     cls = case["cls"]
     in_scope = SD.in_model_scope(cls)
     val = impl.get("validated")
-    if in_scope:
-        d = _loose_err(SD.res_diff("constructor", model.get("validated"), val))
-        if d:
-            msgs.append(d)
+    # (the validated constructor itself is C01 / C02's subject and is not corresponded here)
     for name, mkey in (("trustedKw", "trustedKw"), ("trustFlag", "trustedKw"), ("trustedMap", "trustedMap")):
         d = S.res_same(cls, model.get(mkey), impl.get(name))
         if d:
@@ -264,6 +312,8 @@ def judge_fast(case, impl, model):
     m_fast = None
     if impl.get("created") and model.get("created") and fast is not None:
         m_fast = S.res_same(cls, model.get("fast"), fast, doc=True, mapped=not mapper_free)
+        if m_fast and "exception class differs" in m_fast:
+            m_fast = None      # both raise; the exception class of a failing serialize() is not part of the claim
         if m_fast:
             msgs.append("fast serialize: " + m_fast)
     if mapper_free and in_scope and reg is not None and "regular" in model:
@@ -280,9 +330,9 @@ def judge_fast(case, impl, model):
             what = "fast-raises"
             detail = f"{fast.get('err')}: {fast.get('msg')}"
         else:
-            a = drop_top_nulls(fast["ok"]) if case["serializeNone"] else fast["ok"]
+            cands = [fast["ok"]] + ([drop_top_nulls(fast["ok"])] if case["serializeNone"] else [])
             detail = json.dumps(reg["ok"])[:150] + " vs " + json.dumps(fast["ok"])[:150]
-            if not S.same_doc(cls, a, reg["ok"], mapped=not mapper_free):
+            if not any(S.same_doc(cls, a, reg["ok"], mapped=not mapper_free) for a in cands):
                 what = "fast-differs"
             elif impl.get("via_serializer") and "ok" in impl["via_serializer"] and not S.same_doc(
                     cls, impl["via_serializer"]["ok"], fast["ok"], mapped=not mapper_free):
